@@ -139,7 +139,10 @@ def fastavro_writes(F, ch, ctx):
         sc.codec = fcodec
         sc.sync_marker = b""
     else:
-        data = common.fa_file(sc)
+        try:
+            data = common.fa_file(sc)
+        except Exception as e:  # noqa
+            raise Violation("layout", "writer-raises", detail=dict(info, exc=jsonable(e)), scenario=desc)
     try:
         p = refavro.parse_container(data)
     except refavro.RefError as e:
